@@ -290,11 +290,11 @@ def refs():
 
 
 def c01_quick():
-    return (arith(consumers=('local', 'cmp', 'widen')) + arithlit(tier='quick') + compare() + casts() + unary() + control() + composites() + refs() + castuse('quick'))
+    return (arith(consumers=('local', 'cmp', 'widen')) + arithlit(tier='quick') + compare() + casts() + unary() + control() + composites() + refs() + lang2() + castuse('quick'))
 
 
 def c01_thorough():
-    return (arith() + arithlit(tier='thorough') + compare() + casts() + unary() + control() + composites() + refs() + castuse('thorough'))
+    return (arith() + arithlit(tier='thorough') + compare() + casts() + unary() + control() + composites() + refs() + lang2() + castuse('thorough'))
 
 
 # ------------------------------------------------------------------------------------------------ C04 fixed arrays
@@ -759,7 +759,7 @@ def c02_extra(tier='quick'):
 def c02(tier='quick', seed=0):
     if tier == 'quick':
         T6 = [I8, I32, I64, U8, U32, U64]
-        base = arith(types=T6, consumers=('local', 'cmp')) + arithlit(types=T6, tier='quick') + compare(types=T6) + casts() + unary(types=T6) + control() + composites() + refs()
+        base = arith(types=T6, consumers=('local', 'cmp')) + arithlit(types=T6, tier='quick') + compare(types=T6) + casts() + unary(types=T6) + control() + composites() + refs() + lang2()
         out = base + castuse(tier) + c02_extra(tier) + c08(tier) + c18(tier)[::2]
         # encoder validation by witness replay (two compiles, one native run, one node run) on a third of the templates
         # per run (which third depends on the seed); counterexamples are always replayed
@@ -794,4 +794,64 @@ def c10_wide(tier='quick'):
                     If(Cmp('<', c, e), [Return(Lit(3, I64))]),
                     Return(Cast(c, I64))]
             out.append(Template('c10/wide/%s/%d' % (ty.name, i), fn1(body), family='c10-wide-literal'))
+    return out
+
+
+# ------------------------------------------------------------------------------------------------ C01 language features
+def lang2():
+    """Enums with match, optionals with ??, function literals, value-receiver methods, nested structs, strings
+    (len, indexing), prints of several types, for-in over dynamic arrays, multi-parameter calls."""
+    out = []
+    # enum + match on enum values chosen by a parameter
+    ET = EnumT('Color', ['Red', 'Green', 'Blue'])
+    pick = Func('pick', [('k', I64)], ET, [If(Cmp('==', Var('k', I64), Lit(0, I64)), [Return(EnumVal(ET, 'Red'))]),
+                                             If(Cmp('==', Var('k', I64), Lit(1, I64)), [Return(EnumVal(ET, 'Green'))]), Return(EnumVal(ET, 'Blue'))])
+    body = [Let('c', ET, Call('pick', [X], ET)),
+            Match(Var('c', ET), [(EnumVal(ET, 'Red'), [Return(Lit(10, I64))]), (EnumVal(ET, 'Green'), [Return(Lit(20, I64))]), (None, [Return(Lit(30, I64))])])]
+    out.append(Template('lang/enum_match', fn1(body, types=[ET], extra=[pick]), family='lang'))
+    body = [Let('c', ET, Call('pick', [X], ET)), If(Cmp('==', Var('c', ET), EnumVal(ET, 'Green')), [Return(Lit(1, I64))]), Return(Lit(0, I64))]
+    out.append(Template('lang/enum_eq', fn1(body, types=[ET], extra=[pick]), family='lang'))
+    # optional: none or some(value) depending on a parameter, then ??
+    for ty in (I32, I64, I8):
+        OT = OptT(ty)
+        body = [Let('o', OT, NoneLit(OT)), If(Cmp('>', Y, Lit(0, I64)), [Assign(Var('o', OT), Cast(X, ty))]),
+                Let('r', ty, Coalesce(Var('o', OT), Lit(7, ty))), Return(Cast(Var('r', ty), I64))]
+        out.append(Template('lang/optional_coalesce/%s' % ty.name, fn2(body), family='lang'))
+    # function literal called twice
+    lf = Func('f', [('a', I32), ('b', I32)], I32, [Return(Bin('-', Bin('+', Var('a', I32), Lit(3, I32)), Var('b', I32)))])
+    body = [FuncLitLet('f', lf), Let('u', I32, Call('f', [Cast(X, I32), Cast(Y, I32)], I32)), Let('v', I32, Call('f', [Var('u', I32), Lit(1, I32)], I32)), Return(Cast(Var('v', I32), I64))]
+    out.append(Template('lang/funclit_twice', fn2(body), family='lang'))
+    # value receiver: the method works on a copy
+    CT = StructT('Cnt', [('V', I32), ('W', I64)])
+    bump = Func('bump', [], I32, [Assign(Field(Var('c', CT), 'V'), Bin('+', Field(Var('c', CT), 'V'), Lit(1, I32))), Return(Field(Var('c', CT), 'V'))], recv=('c', CT))
+    body = [Let('c', CT, StructLit(CT, {'V': Cast(X, I32), 'W': Y})), Let('a', I32, MethodCall(Var('c', CT), 'bump', [], I32)),
+            Return(Bin('+', Bin('*', Cast(Var('a', I32), I64), Lit(1000, I64)), Cast(Field(Var('c', CT), 'V'), I64)))]
+    out.append(Template('lang/value_receiver', fn2(body, types=[CT], extra=[bump]), family='lang', pre=lambda a: z3.And(z3.Extract(31, 0, a[0]) != 0x7fffffff, a[0] == z3.SignExt(32, z3.Extract(31, 0, a[0])), z3.ULT(a[0] + 1000, 2000))))
+    # nested struct: write an inner field, read everything back
+    IN = StructT('Inner', [('P', I8), ('Q', I64)])
+    OUTT = StructT('Outer', [('A', I16), ('N', IN), ('Z', I32)])
+    o = Var('o', OUTT)
+    body = [Let('o', OUTT, StructLit(OUTT, {'A': Cast(X, I16), 'N': StructLit(IN, {'P': Cast(Y, I8), 'Q': Y}), 'Z': Lit(5, I32)})),
+            Assign(Field(Field(o, 'N'), 'Q'), X),
+            Return(Bin('+', Bin('+', Cast(Field(o, 'A'), I64), Cast(Field(Field(o, 'N'), 'P'), I64)), Bin('+', Field(Field(o, 'N'), 'Q'), Cast(Field(o, 'Z'), I64))))]
+    out.append(Template('lang/nested_struct_write', fn2(body, types=[IN, OUTT]), family='lang'))
+    # strings: length and indexing of a literal chosen by a branch
+    body = [Let('s', STR, StrLit('ferret')), If(Cmp('>', X, Lit(0, I64)), [Assign(Var('s', STR), StrLit('ab'))]),
+            Let('n', I32, Len(Var('s', STR))), Let('c', BYTE, Index(Var('s', STR), Lit(1, I32))),
+            Return(Bin('+', Bin('*', Cast(Var('n', I32), I64), Lit(1000, I64)), Cast(Var('c', BYTE), I64)))]
+    out.append(Template('lang/string_len_index', fn1(body), family='lang'))
+    # prints of several types, then a return
+    body = [Print(Cast(X, I8)), Print(Cast(Y, U16)), Print(Cmp('<', X, Y)), Print(Cast(X, U64)), Return(Bin('+', X, Y))]
+    out.append(Template('lang/prints', fn2(body), family='lang'))
+    # for-in over a dynamic array built with appends
+    DT = DynT(I64)
+    a = Var('a', DT)
+    body = [Let('a', DT, ArrLit(DT, [X, Lit(5, I64)])), Append(a, Y), Append(a, Bin('-', X, Y)), Let('s', I64, Lit(0, I64)),
+            ForIn('i', 'v', a, [OpAssign(Var('s', I64), '+', Bin('+', Var('v', I64), Cast(Var('i', I32), I64)))]), Return(Var('s', I64))]
+    out.append(Template('lang/forin_dynarray', fn2(body), family='lang'))
+    # a call with five parameters of different widths, evaluated left to right
+    h = Func('h', [('a', I8), ('b', U16), ('c', I32), ('d', U64), ('e', BOOL)], I64,
+             [If(Var('e', BOOL), [Return(Bin('+', Bin('+', Cast(Var('a', I8), I64), Cast(Var('b', U16), I64)), Cast(Var('c', I32), I64)))]), Return(Cast(Var('d', U64), I64))])
+    body = [Let('r', I64, Call('h', [Cast(X, I8), Cast(Y, U16), Cast(X, I32), Cast(Y, U64), Cmp('>', X, Y)], I64)), Return(Var('r', I64))]
+    out.append(Template('lang/call5', fn2(body, extra=[h]), family='lang'))
     return out
